@@ -8,7 +8,7 @@ from hypothesis import strategies as st
 
 from vp import core
 from vp.gen import queries
-from vp.oracle import engines
+from vp.oracle import contradiction, engines
 
 ID = "C03"
 LEVEL = "exploration"
@@ -66,6 +66,11 @@ def _check(case, res, db):
         # known finding C03-cross-join-limit-1-eliminated
         if res is not None:
             res.excluded["C03-cross-join-limit-1-eliminated"] += 1
+        return []
+    if not case.get("strict") and contradiction.in_region(sql):
+        # known finding C03-contradiction-to-false (root cause C06-contradiction-to-false)
+        if res is not None:
+            res.excluded["C03-contradiction-to-false"] += 1
         return []
     try:
         names0, rows0 = db.run(sql)
